@@ -388,6 +388,6 @@ CLAUSES = [
                 "around it; non-trivial = a transfer of >= 1 byte after a "
                 "seek outside [0, len] or on a slice, or any transfer "
                 "attempted at an outside position",
-           examples={"quick": 600, "thorough": 10000},
+           examples={"quick": 1200, "thorough": 10000},
            shards={"quick": 8, "thorough": 16}),
 ]
